@@ -224,30 +224,29 @@ class Ctx:
         return lines
 
     def exec_bisect(self, cases):
-        """run in chunks; a chunk that dies or hangs is split until the single killing case is isolated,
+        """run in chunks; a chunk that dies or hangs is halved until the single killing case is isolated,
         which is then reported as the observation `crash:rc=..` or `hang`"""
-        case_to = getattr(self.prop, "CASE_TIMEOUT", 60)
-        res = []
-        todo = [cases[i:i + max(1, len(cases) // 16)] for i in range(0, len(cases), max(1, len(cases) // 16))]
+        case_to = getattr(self.prop, "CASE_TIMEOUT", 20)
+        step = max(1, len(cases) // 16)
+        todo = [(i, cases[i:i + step]) for i in range(0, len(cases), step)]
+        res = [None] * len(cases)
         while todo:
-            part = todo.pop(0)
+            off, part = todo.pop(0)
             try:
-                rc, out, err = run([self.bin, "exec"], inp="\n".join(part) + "\n", timeout=case_to * (1 if len(part) == 1 else 4))
+                rc, out, err = run([self.bin, "exec"], inp="\n".join(part) + "\n", timeout=case_to + 0.02 * len(part))
                 hung = False
-            except subprocess.TimeoutExpired as e:
-                rc, out, hung = -9, (e.stdout.decode() if isinstance(e.stdout, bytes) else (e.stdout or "")), True
+            except subprocess.TimeoutExpired:
+                rc, out, hung = -9, "", True
             lines = out.split("\n")
             if lines and lines[-1] == "":
                 lines.pop()
             if rc == 0 and len(lines) == len(part):
-                res += lines
+                res[off:off + len(part)] = lines
             elif len(part) == 1:
-                res.append("hang" if hung else "crash:rc=%s" % rc)
+                res[off] = "hang" if hung else "crash:rc=%s" % rc
             else:
-                done = min(len(lines), len(part) - 1)      # complete lines before the death are kept
-                res += lines[:done]
-                rest = part[done:]
-                todo = [rest[:1], rest[1:]] + todo if len(rest) > 1 else [rest] + todo
+                h = len(part) // 2
+                todo = [(off, part[:h]), (off + h, part[h:])] + todo
         return res
 
     def run_model(self, cases):
